@@ -78,6 +78,21 @@ def r_arc(ctx, fqs, floor=0, derived=True):
             run.check(ok, 'R-ARC', f, 'allocation#%d' % a, f.nodes[dd.node].lineno, 'allocated 4^K x 4',
                       'accessor allocated with %s rows, not 4^K (K = %s)' % (show(rows), show(K) if K else None),
                       inputs='every observed length')
+            # entries are vertex numbers up to 4^K - 1: a fixed narrow integer type wraps them
+            NARROW = ('int8', 'int16', 'uint8', 'uint16', 'byte', 'short', 'ubyte', 'ushort', 'int32', 'uint32', 'intc')
+            for x in walk_term(t):
+                if x[0] == 'call':
+                    dt = call_arg(x, None, 'dtype')
+                    alts = f.alternatives(dt) if dt is not None else None
+                    cands = [t2 for _d, t2 in alts if t2 is not None] if alts else ([dt] if dt is not None else [])
+                    names_ = [c_[1].split('.')[-1] if c_[0] == 'g' else (c_[1] if c_[0] == 'c' and isinstance(c_[1], str) else None)
+                              for c_ in cands]
+                    narrow = [nm for nm in names_ if nm in NARROW and nm not in ('int32', 'uint32', 'intc')]
+                    if narrow:
+                        run.refute('R-ARC', f, 'allocation#%d:entry-width' % a, f.nodes[dd.node].lineno,
+                                   'the accessor is allocated with dtype %s: successor indices up to 4^K - 1 wrap silently (128 becomes '
+                                   '-128 in int8, 32768 becomes -32768 in int16), so arcs turn into "missing" or point elsewhere'
+                                   % narrow, inputs='observed lengths at which 4^K - 1 no longer fits the chosen width (K = 4, K = 8)')
         if derived:
             check_derived(ctx, f)
     run.floor('R-ARC', 'stores into accessors', n, floor)
@@ -581,7 +596,15 @@ def r_fix(ctx):
         if not (isinstance(head.ast, ast.Constant) and head.ast.value is True):
             t = f.term(head.ast, head)
             okt = any(is_change_indicator(ctx, f, a, carried, body) for a, p in flatten_cond(t, True))
-            run.check(okt, 'R-FIX', f, 'loop-test-is-change-test', head.lineno, 'the loop test is a change test',
+            # witness of a bounded loop: the test compares a counter with a constant / a parameter
+            bounded = any(a[0] == 'cmp' and a[1] in ('<', '<=') and (a[3][0] == 'c' or a[2][0] == 'c' or
+                                                                   any(x[0] == 'v' and x[2] == 'P' for x in walk_term(a)))
+                          for a, p in flatten_cond(t, True))
+            if not okt and not bounded:
+                run.undecided('R-FIX', f, 'loop-test-is-change-test', head.lineno,
+                              'the loop test %s is not recognised as a test of "the last round changed something"' % show(t)[:60])
+            else:
+              run.check(okt, 'R-FIX', f, 'loop-test-is-change-test', head.lineno, 'the loop test is a change test',
                       "the trimming loop also ends when %s becomes false, whether or not a round still removed something: "
                       "the fixed point is not reached for masks that need more rounds" % show(t)[:80],
                       inputs='masks whose chain of dying vertices is longer than the bound')
@@ -671,21 +694,30 @@ def r_fix(ctx):
 def change_sense(ctx, f, atom, carried, body):
     """'unchanged' when the atom is true iff the round changed nothing (size(old) == size(new)), else 'changed'"""
     t = atom
+    flip = False
+    while t[0] == 'un' and t[1] == 'not':
+        flip, t = not flip, t[2]
+    res = 'changed'
     if t[0] == 'cmp' and t[1] == '==':
-        return 'unchanged'
-    if t[0] == 'v' and isinstance(t[2], tuple):
+        res = 'unchanged'
+    elif t[0] == 'v' and isinstance(t[2], tuple):
         for di in t[2]:
             d = f.defs[di]
             if d.node in body and d.kind == 'assign':
                 dv = TermBuilder(f, d.node).def_term(d.id)
-                if dv is not None and dv != t and dv[0] == 'cmp' and dv[1] == '==':
-                    return 'unchanged'
-    return 'changed'
+                if dv is not None and dv != t and dv[0] in ('cmp', 'un', 'v', 'bin'):
+                    res = change_sense(ctx, f, dv, carried, body)
+                    break
+    if flip:
+        res = 'unchanged' if res == 'changed' else 'changed'
+    return res
 
 
 def is_change_indicator(ctx, f, atom, carried, body):
     """`changed` = size(old) - size(new)   or a flag set True exactly where something is dropped"""
     t = atom
+    while t[0] == 'un' and t[1] == 'not':
+        t = t[2]
     if t[0] == 'bin' and t[1] == '-':
         names = {x[1] for x in walk_term(t) if x[0] == 'v'}
         return carried in names and len(names) >= 2
@@ -698,7 +730,7 @@ def is_change_indicator(ctx, f, atom, carried, body):
         for d in defs:
             if d.node in body and d.kind == 'assign':
                 dv = TermBuilder(f, d.node).def_term(d.id)
-                if dv is not None and dv != t and dv[0] in ('bin', 'cmp') and is_change_indicator(ctx, f, dv, carried, body):
+                if dv is not None and dv != t and dv[0] in ('bin', 'cmp', 'un', 'v') and is_change_indicator(ctx, f, dv, carried, body):
                     return True
         vals = []
         for d in defs:
@@ -723,6 +755,34 @@ def r_arb(ctx):
                       'the threshold-1 pruning no longer uses the cycle search this rule decides; whether it still reaches the '
                       'fixed point (a removal can turn a branching vertex into an information-free one) is not decided')
         return
+    # "nothing is left" is judged after the pruning, not before it
+    dom_ = f.dominators()
+    for i, (nd, c) in enumerate(sites):
+        if not nd.loops:
+            continue
+        head0 = nd.loops[-1]
+        body0 = {n.id for n in f.nodes if head0 in n.loops}
+        after, before = [], []
+        for r_ in f.stmts(ast.Raise):
+            if _exc_type(f, r_) != 'ValueError' or not r_.conds or r_.id in body0:
+                continue
+            tid = r_.conds[-1][2]
+            tt = f.term(f.nodes[tid].ast, f.nodes[tid])
+            about_count = any(is_call(x, 'builtins.len') or (x[0] == 'attr' and x[2] == 'size') for x in walk_term(tt))
+            if not about_count:
+                continue
+            if head0 in dom_[tid]:
+                after.append(r_)
+            elif tid in dom_[head0] and any(a == ('cmp', '==', ('v', 'threshold', 'P'), ('c', 1)) and p for a, p in ctx.conds(f, r_)):
+                before.append(r_)
+        if before and not after:
+            run.refute('R-ARB', f, 'emptiness-judged-after-pruning#%d' % (i + 1), before[0].lineno,
+                       'the threshold-1 "nothing is left" error is tested at line %d, before the cycle pruning starts: at that point '
+                       'the vertices still are the trimmed mask, so a mask that consists of information-free cycles only is pruned to '
+                       'nothing and an empty graph is returned instead of ValueError' % before[0].lineno,
+                       inputs='threshold 1 with masks such as {AA}, {AC, CA}')
+        elif after:
+            run.ok('R-ARB', f, 'emptiness-judged-after-pruning#%d' % (i + 1), after[0].lineno, 'the emptiness test follows the pruning loop')
     for i, (nd, c) in enumerate(sites):
         if not nd.loops:
             continue
